@@ -6,7 +6,7 @@
 //! judged after every step against a reference map.
 
 use crate::dev::{ColorKind, SimColor, SimDisplay, SimError, C32};
-use crate::erased::{with_stack, Ad, DynTarget, Visitor};
+use crate::erased::{with_stack, Ad, DynTarget, InfallibleTarget, Visitor};
 use crate::json::J;
 use crate::model::{StackModel, TOp, R};
 use crate::prop::{Opts, Property, RunOut, Tier, Violation};
@@ -16,7 +16,6 @@ use crate::rng::{det_hash, Hash64, Src};
 use crate::runner::guarded;
 use crate::scen::{gen_rect_rel, gen_stack, stack_json};
 use crate::workload::{draw_spec, gen_drawable, gen_knobs, DrawableSpec, Path};
-use core::convert::Infallible;
 use embedded_graphics::framebuffer::{buffer_size, Framebuffer};
 use embedded_graphics::image::{GetPixel, Image};
 use embedded_graphics::pixelcolor::raw::{BigEndianLsb0, LittleEndianMsb0};
@@ -31,33 +30,6 @@ pub const SIZES: [(u32, u32); 8] = [(0, 0), (1, 1), (3, 2), (5, 4), (8, 3), (9, 
 pub const TAIL: usize = 3;
 
 // ---------------------------------------------------------------- framebuffer behind an object-safe interface
-
-/// Forwards all four target methods to the framebuffer (which inherits the three trait defaults),
-/// only changing the error type so the shared adapter-stack machinery can be used.
-struct FbTarget<'a, F>(&'a mut F);
-
-impl<F: DrawTarget<Error = Infallible>> Dimensions for FbTarget<'_, F> {
-    fn bounding_box(&self) -> Rectangle {
-        self.0.bounding_box()
-    }
-}
-
-impl<C: SimColor, F: DrawTarget<Color = C, Error = Infallible>> DrawTarget for FbTarget<'_, F> {
-    type Color = C;
-    type Error = SimError;
-    fn draw_iter<I: IntoIterator<Item = Pixel<C>>>(&mut self, pixels: I) -> Result<(), SimError> {
-        self.0.draw_iter(pixels).map_err(|e| match e {})
-    }
-    fn fill_contiguous<I: IntoIterator<Item = C>>(&mut self, area: &Rectangle, colors: I) -> Result<(), SimError> {
-        self.0.fill_contiguous(area, colors).map_err(|e| match e {})
-    }
-    fn fill_solid(&mut self, area: &Rectangle, color: C) -> Result<(), SimError> {
-        self.0.fill_solid(area, color).map_err(|e| match e {})
-    }
-    fn clear(&mut self, color: C) -> Result<(), SimError> {
-        self.0.clear(color).map_err(|e| match e {})
-    }
-}
 
 pub trait FbOps<C: SimColor> {
     fn fb_size(&self) -> (u32, u32);
@@ -129,7 +101,7 @@ macro_rules! fb_impl {
                 Ok(dev.st.memory)
             }
             fn with_target(&mut self, f: &mut dyn FnMut(&mut DynTarget<'_, $c>)) {
-                let mut t = FbTarget(self);
+                let mut t = InfallibleTarget(self);
                 let mut d = DynTarget::new(&mut t);
                 f(&mut d)
             }
